@@ -721,6 +721,12 @@ class C09(Oracle):
         return out
 
 
+def enc_obj_of(o):
+    from harness.codec import enc_obj
+
+    return enc_obj(o)
+
+
 def enc_state_cell(s, p):
     from harness.codec import enc_obj
 
@@ -2618,6 +2624,56 @@ class C01(Oracle):
                     out.append(V('functional_observation/outside-space', f'{enc_state(s2)}'))
             except Exception as e:
                 out.append(V('functional_observation/raises', f'{type(e).__name__}: {e}'))
+        if out:
+            return out
+        # states with a past: this state object (and a copy of it) has been judged by the membership
+        # predicate many times by now.  Cells are then replaced in place (same type / other colour, other
+        # type): membership is judged on what the state is now, and a step is total on what conforms now
+        from harness.codec import dec_obj
+
+        def conforms_now(space, st):
+            cells = [st.grid[p] for p in st.grid.area.positions()]
+            cols = set(space.colors) | {Color.NONE}
+            return (
+                st.grid.shape == space.grid_shape
+                and all(type(o) in space.object_types for o in cells)
+                and all(o.color in cols for o in cells)
+                and in_grid(st.grid, st.agent.position)
+                and (type(st.agent.grid_object) in space.object_types or isinstance(st.agent.grid_object, NoneGridObject))
+                and st.agent.grid_object.color in cols
+            )
+
+        for st, tag in ((s, 'the state itself'), (fast_copy(s), 'a copy of it')):
+            for _ in range(3):
+                p = Position(r0.randrange(st.grid.shape.height), r0.randrange(st.grid.shape.width))
+                coloured = [q for q in st.grid.area.positions() if st.grid[q].color is not Color.NONE]
+                if coloured and r0.random() < 0.7:
+                    p = r0.choice(coloured)
+                old = st.grid[p]
+                if r0.random() < 0.7 and old.color is not Color.NONE:
+                    tok = enc_obj_of(old)
+                    new = dec_obj(tok[:-1] + str(r0.choice([x for x in range(1, 5) if str(x) != tok[-1]])))  # same type and status, another colour
+                else:
+                    new = dec_obj(r0.choice(gen.ALPHABET_CORE))
+                st.grid[p] = new
+                for space, sname in ((env.state_space, 'the environment space'),) + (((ssp, 'a smaller space'),) if sub_kinds else ()):
+                    exp, got = conforms_now(space, st), space.contains(st)
+                    if exp != got:
+                        out.append(V('StateSpace.contains/stale-after-in-place-change', f'{tag}: {c["state"]} then grid[{p.y},{p.x}] = {new!r} (was {old!r}): contains says {got}, {sname} {"holds" if exp else "does not hold"} it'))
+                        return out
+                if not c.get('debug', True):
+                    continue
+                a = r0.choice(list(env.action_space.actions))
+                ok_now = conforms_now(env.state_space, st) and is_valid(st)
+                env.set_seed(c['seed'])
+                try:
+                    env.functional_step(st, a)
+                except ValueError as e:
+                    if ok_now and 'state_space' in str(e):
+                        out.append(V('functional_step/refuses-member-state', f'{tag}: {enc_state(st)} a={a}: {e}'))
+                        return out
+                except Exception:
+                    pass
         return out
 
 
